@@ -104,7 +104,7 @@ def part_a(res, rng, tier, seed, gen, coq):
     for fmt, sc, kind in plans:
         res_ = l1b.FMT[fmt]["res"]
         rate_us = gen["Gen_Drift"][res_ + "_rate_us"]
-        step_us = gen["Gen_Drift"][res_ + "_step_us"]
+        step_us = rate_us      # the model hands out nominal times on the reader's own line period; the implementation is compared with it
         # the stand-in trajectory runs at the reader's own line period (timedelta(milliseconds=1/scan_freq): 500000 / 166667 us;
         # C09_source_shape pins these values, 2e-6 relative from 1/6 s)
         true_period_us = Fraction(rate_us)
